@@ -346,9 +346,12 @@ def check_discards(n_requests):
     ok = len(new) == 1 and new[0][0] == M.T_DISCARDED
     if ok:
       (size,) = struct.unpack('>i', written[:4])
-      d = M.decode_tdiscarded(new[0][2])
-      ok = size == len(written) - 4 and d['tag'] == tag and d['reason'] == b'Client timeout' and \
-        new[0][2] == bytes([(tag >> 16) & 255, (tag >> 8) & 255, tag & 255]) + d['reason']
+      try:
+        d = M.decode_tdiscarded(new[0][2])
+        ok = size == len(written) - 4 and d['tag'] == tag and d['reason'] == b'Client timeout' and \
+          new[0][2] == bytes([(tag >> 16) & 255, (tag >> 8) & 255, tag & 255]) + d['reason']
+      except M.FrameError:
+        ok = False
     if not ok:
       viol.append({'clause': 'C13.discard', 'message': 'after the deadline of the request with tag %d fired the peer decoded %r'
                    % (tag, [(f[0], f[1], f[2]) for f in new]), 'sig': {}})
